@@ -16,6 +16,8 @@ M={
  "kmap_ii": ("            k_matrix[i, j]: cls.parametrization(\n                i=i,\n                j=j,\n                s=s,", "            k_matrix[i, j]: cls.parametrization(\n                i=i,\n                j=i,\n                s=s,"),
  "nr_residue_sqrt_dropped": ("            return residue_constant[pole_id, i] * sp.sqrt(\n                pole_position[pole_id] * pole_width[pole_id, i]\n            )", "            return residue_constant[pole_id, i] * (\n                pole_position[pole_id] * pole_width[pole_id, i]\n            )"),
  "t_hat_flag_ignored": ("        if return_t_hat:\n            return t_hat, k_matrix\n        t_matrix = sqrt_rho_conj", "        if False:\n            return t_hat, k_matrix\n        t_matrix = sqrt_rho_conj"),
+ "relk_transposed_equivalent": ("        t_matrix = sqrt_rho_conj * t_hat * sqrt_rho\n        return t_matrix, k_matrix", "        t_matrix = (sqrt_rho_conj * t_hat * sqrt_rho).T\n        return t_matrix, k_matrix"),
+ "relk_cache_without_flag": ("        t_matrix, k_matrix = cls._create_matrices(n_channels, return_t_hat)\n", "        _memo = globals().setdefault(\"_vf_memo\", {})\n        if n_channels not in _memo:\n            _memo[n_channels] = cls._create_matrices(n_channels, return_t_hat)\n        t_matrix, k_matrix = _memo[n_channels]\n"),
  # --- C10-oriented
  "phsp_not_forwarded": ("                    meson_radius=meson_radius,\n                    phsp_factor=phsp_factor,\n                )\n                for i in range(n_channels)\n                for j in range(n_channels)\n            })\n            .xreplace({\n                p_vector[i]", "                    meson_radius=meson_radius,\n                )\n                for i in range(n_channels)\n                for j in range(n_channels)\n            })\n            .xreplace({\n                p_vector[i]"),
  "cache_without_flag": ("    @staticmethod\n    @functools.cache\n    def _create_matrices(\n        n_channels, return_f_hat: bool = False\n    )", "    @staticmethod\n    def _create_matrices(n_channels, return_f_hat: bool = False):\n        return RelativisticPVector._create_matrices_cached(n_channels) if n_channels in RelativisticPVector._seen else RelativisticPVector._first(n_channels, return_f_hat)\n\n    _seen: dict = {}\n\n    @staticmethod\n    def _first(n_channels, return_f_hat):\n        RelativisticPVector._seen[n_channels] = RelativisticPVector._create_matrices_impl(n_channels, return_f_hat)\n        return RelativisticPVector._seen[n_channels]\n\n    @staticmethod\n    def _create_matrices_cached(n_channels):\n        return RelativisticPVector._seen[n_channels]\n\n    @staticmethod\n    def _create_matrices_impl(\n        n_channels, return_f_hat: bool = False\n    )"),
